@@ -297,8 +297,13 @@ func (cs *ContractSet) ParseContractFile(path string, pkgPath string) error {
 			if pkgPath != "" {
 				name = pkgPath + "." + name
 			}
-			curType = &TypeContract{Name: name, ProtectedBy: map[string][]string{}, OwnerLock: map[string][]string{}, Writers: map[string][]string{}}
-			cs.Types[name] = curType
+			if prev, ok := cs.Types[name]; ok {
+				// a second block for the same type (another property's file) adds to the first
+				curType = prev
+			} else {
+				curType = &TypeContract{Name: name, ProtectedBy: map[string][]string{}, OwnerLock: map[string][]string{}, Writers: map[string][]string{}}
+				cs.Types[name] = curType
+			}
 		case "protected_by":
 			if curType == nil {
 				return fmt.Errorf("%s:%d: protected_by outside type", path, l.no)
